@@ -1059,7 +1059,7 @@ func main() {
 	// --- 8. random transactions ---
 	nRand := 150
 	if thorough {
-		nRand = 3000
+		nRand = 5000
 	}
 	for i := 0; i < nRand; i++ {
 		mode := r.Intn(4)
